@@ -16,6 +16,7 @@ from util import J
 
 LEVEL = "proof"
 C_RES = 10.0
+C_BICG_KNOWN = 2000.0     # upper end of the listed finding C12/bicgstab-local-solver-residual (clean tree: <= ~45*eps over 360 probes, 433*eps in the design probes); beyond it a BiCGSTAB run is a NEW violation
 RULE = ("(a) kernel cases: random integer Phi tensors and cores (ranks 1..3, modes 1..4, rectangular where the kernel allows), all kernels incl. banded local product "
         "(band 0..2) and _LinearOp.matvec with prec None/'c'/'r' (dyadic data so that the block inverses are exact); (b) monitor: SPD / diagonally dominant / "
         "Laplacian-like systems, order 2..5, mode sizes 2..12, operator ranks 1..4, rhs ranks 1..4, eps in [1e-10,1e-3], preconditioner None/'c'/'r', "
@@ -214,7 +215,7 @@ def monitor_cases(rng, tier, stats):
             if r is None:
                 return "amen_solve raised or returned a wrong shape"
             if r > C_RES:
-                fnd = "[finding:C12/bicgstab-local-solver-residual] " if "/ls2" in label else ""
+                fnd = "[finding:C12/bicgstab-local-solver-residual] " if ("/ls2" in label and r <= C_BICG_KNOWN) else ""
                 return fnd + "relative residual %.3g*eps exceeds %g*eps (eps=%.2g, %s)" % (r, C_RES, eps, label)
             return None
         cases.append(Case(None, impl, oracle, "monitor/" + label, True, desc="amen_solve %s N=%s eps=%.2g seed=%d" % (label, N, eps, seed)))
@@ -292,6 +293,25 @@ def trace_cases(res, rng, tier):
         runs.append(("amen_solve/%s/d%d" % (kind, d), thunk))
     n = solve_loop_tie(res, "C12", rng, S._amen_solve_python, "solution_now = tn.linalg.solve(B, rhs)", runs, "A", "b", False)
     res.extra["amen_loop_state_evaluations"] = n
+    # the block after the local solve: reported residuals, rank rule, truncation + enrichment + QR + absorption (TTModel/AmenStep.lean, TT.C12d)
+    from looptie import update_loop_tie
+    runs = []
+    combos = [(10 ** 6, 1, None), (0, 1, None), (0, 2, None), (0, 1, "c"), (10 ** 6, 1, "r"), (0, 2, "c")]
+    for c in range(6 if tier == "quick" else 36):
+        d = [3, 2, 3, 4, 3, 2][c % 6]
+        N = [rng.randint(2, 4) for _ in range(d)]
+        kind = ["laplace", "dd", "spd"][c % 3]
+        max_full, ls, prec = combos[c % len(combos)]
+        seed = rng.randrange(1 << 30)
+
+        def thunk(N=N, kind=kind, seed=seed, max_full=max_full, ls=ls, prec=prec, eps_t=[1e-7, 1e-2][(c // 3) % 2]):
+            tn.manual_seed(seed); np.random.seed(seed % (2 ** 32))
+            A, b = system(rng, kind, N)
+            S._amen_solve_python(A, b, nswp=5, eps=eps_t, max_full=max_full, kickrank=2, local_solver=ls, preconditioner=prec, verbose=False)
+        runs.append(("amen_solve/%s/d%d/maxfull%d/ls%d/prec-%s" % (kind, d, max_full, ls, prec), thunk))
+    pats = {"res": "if res_old/res_new < damp", "scan": "if res > max(real_tol*damp", "vt": "v = v.t()", "qr": "r_add = uk.shape", "set": "x_cores[k] = tn.reshape(u,"}
+    stats = update_loop_tie(res, "C12", rng, S._amen_solve_python, pats, runs, opname="A", embed=False, res_rule=True)
+    res.extra["amen_update_tie"] = stats
 
 
 def run(res, rng, tier, known):
